@@ -361,6 +361,10 @@ func (c *compiler) evalUpdateIndex(left, index, value interface{}) error {
 			return fmt.Errorf("cannot use '%v' (%s) as %s value in assignment", value, val.Type(), elemType)
 		}
 
+		if val.IsValid() && holds(val, func(v reflect.Value) bool { return v.Kind() == reflect.Map && v.Pointer() == rv.Pointer() }, nil) {
+			return fmt.Errorf("cannot store a value that contains the map in the map itself")
+		}
+
 		rv.SetMapIndex(key, val)
 	case reflect.Array, reflect.Slice:
 		if i, ok := index.(int); ok {
@@ -385,6 +389,14 @@ func (c *compiler) evalUpdateIndex(left, index, value interface{}) error {
 					err = fmt.Errorf("cannot assign to an element of %T: it is not addressable", left)
 				}
 				if err == nil {
+					slot := rv.Index(i).Addr().Pointer()
+					if holds(val, func(v reflect.Value) bool {
+						return v.Kind() == reflect.Slice && v.Len() > 0 && v.Pointer() <= slot && slot <= v.Index(v.Len()-1).Addr().Pointer()
+					}, nil) {
+						err = fmt.Errorf("cannot store a value that contains the element in the element itself")
+					}
+				}
+				if err == nil {
 					rv.Index(i).Set(val)
 				}
 			}
@@ -396,6 +408,66 @@ func (c *compiler) evalUpdateIndex(left, index, value interface{}) error {
 	}
 
 	return err
+}
+
+// holds reports whether is() is true for v or for anything v contains.
+// Index assignment uses it to refuse tying a value into itself: a slice or
+// map that contains itself can be built in a template (a[0] = a), and
+// printing one never ends.
+func holds(v reflect.Value, is func(reflect.Value) bool, seen map[[2]uintptr]bool) bool {
+	switch v.Kind() {
+	case reflect.Interface:
+		return !v.IsNil() && holds(v.Elem(), is, seen)
+	case reflect.Ptr, reflect.Map, reflect.Slice:
+		if v.IsNil() {
+			return false
+		}
+		if is(v) {
+			return true
+		}
+		// data handed in from Go may already be cyclic: visit everything once
+		at := [2]uintptr{v.Pointer(), 0}
+		if v.Kind() == reflect.Slice {
+			at[1] = uintptr(v.Len())
+		}
+		if seen == nil {
+			seen = map[[2]uintptr]bool{}
+		}
+		if seen[at] {
+			return false
+		}
+		seen[at] = true
+	case reflect.Array, reflect.Struct:
+	default:
+		return false
+	}
+
+	switch v.Kind() {
+	case reflect.Ptr:
+		return holds(v.Elem(), is, seen)
+	case reflect.Map:
+		for it := v.MapRange(); it.Next(); {
+			if holds(it.Value(), is, seen) {
+				return true
+			}
+		}
+	case reflect.Slice, reflect.Array:
+		switch v.Type().Elem().Kind() {
+		case reflect.Interface, reflect.Ptr, reflect.Map, reflect.Slice, reflect.Array, reflect.Struct:
+			for i := 0; i < v.Len(); i++ {
+				if holds(v.Index(i), is, seen) {
+					return true
+				}
+			}
+		}
+	case reflect.Struct:
+		for i := 0; i < v.NumField(); i++ {
+			if holds(v.Field(i), is, seen) {
+				return true
+			}
+		}
+	}
+	return false
 }
 
 func (c *compiler) evalAccessIndex(left, index interface{}, node *ast.IndexExpression) (interface{}, error) {
